@@ -198,6 +198,27 @@ def mk(kind, p, rid, app=1):
         r['ops'] = [('whoami',), ('kwargs',), ('dump', 'urlargs'), ('path',), ('sethdr', 'X-Who', kind), ('setcookie', 'who', kind),
                     ('status', 201 if kind == 'statica' else 202)]
         r['out'] = ('ret', kind)
+    elif kind in ('listener', 'listener2', 'setter', 'ticker'):
+        # event subscriptions on the request object (C10 only: a listener belongs to ONE application's request
+        # object, for all its threads - so these kinds are not in KINDS).  `listener` subscribes to env_changed
+        # and then stores through `app.request[...]`; `setter` only stores (and reads back what depends on the
+        # stored key); `ticker` uses a user event name.  Every stored value is new (a store of the value already
+        # there emits nothing).
+        sets = [('header', 'X-K'), ('reqset', 'HTTP_X_K', 'n%d' % p), ('header', 'X-K'), ('cookie', 'c'),
+                ('reqset', 'HTTP_X_FORWARDED_HOST', 'fh%d' % p), ('envget', 'HTTP_X_FORWARDED_HOST'),
+                ('header', 'X-Forwarded-Host'), ('reqset', 'x.k%d' % (p % 2), 'k%d' % p), ('envget', 'x.k%d' % (p % 2)),
+                ('path',)]
+        if kind == 'listener':
+            r['ops'] = [('listen', 'env_changed')] + sets
+        elif kind == 'listener2':
+            # two subscriptions, one taken back; a copy of the request has no listeners of its own
+            r['ops'] = [('listen', 'env_changed'), ('listen', 'env_changed'), ('reqset', 'x.two', 't%d' % p),
+                        ('unlisten', 'env_changed'), ('copy',), ('cset', 0, 'HTTP_X_K', 'cp%d' % p), ('cheader', 0, 'X-K')] + sets
+        elif kind == 'ticker':
+            r['ops'] = [('listen', 'tick'), ('reqemit', 'tick', 'HTTP_X_K'), ('listen', 'env_changed'),
+                        ('reqemit', 'tick', 'QUERY_STRING')] + sets + [('reqemit', 'tick', 'x.k%d' % (p % 2))]
+        else:
+            r['ops'] = sets + [('reqemit', 'tick', 'HTTP_X_K'), ('reqemit', 'env_changed', 'PATH_INFO'), ('method',)]
     elif kind == 'errjson':
         r['hdrs'] = dict(r['hdrs'], Accept='application/json')
         r['ops'] = [('sethdr', 'X-Own', 'o%d' % p), ('query', 'q')]
